@@ -237,6 +237,22 @@ class BlackbirdProgram:
 
         kwargs = new_kwargs
 
+        def populate(array):
+            """Replaces the parameters among the elements of an array argument by their values"""
+            populated = copy.deepcopy(array)
+            for i, j in np.ndindex(array.shape):
+                if isinstance(array[i][j], sym.Expr):
+                    par = list(array[i][j].free_symbols)
+                    func = sym.lambdify(par, array[i][j])
+
+                    try:
+                        vals = {str(p): kwargs[str(p)] for p in par}
+                    except KeyError:
+                        raise ValueError("Invalid value for free parameter provided")
+
+                    populated[i][j] = func(**vals)
+            return populated
+
         # set values for args and kwargs in operations
         for op in prog._operations: # pylint: disable=protected-access
             if 'args' not in op:
@@ -253,6 +269,8 @@ class BlackbirdProgram:
                         raise ValueError("Invalid value for free parameter provided")
 
                     op['args'][idx] = func(**vals)
+                elif isinstance(a, np.ndarray) and a.ndim == 2 and a.dtype == object:
+                    op['args'][idx] = populate(a)
 
             for k, v in op['kwargs'].items():
                 if isinstance(v, sym.Expr):
@@ -265,6 +283,8 @@ class BlackbirdProgram:
                         raise ValueError("Invalid value for free parameter provided")
 
                     op['kwargs'][k] = func(**vals)
+                elif isinstance(v, np.ndarray) and v.ndim == 2 and v.dtype == object:
+                    op['kwargs'][k] = populate(v)
 
         # set values for variables and arrays
         for k, v in prog._var.items(): # pylint: disable=protected-access
